@@ -10,6 +10,7 @@ import (
 	"io"
 	"io/fs"
 	"os"
+	"sync"
 	"syscall"
 	"time"
 
@@ -432,7 +433,37 @@ type onlyWriter struct{ f *File }
 func (w onlyWriter) Write(b []byte) (int, error) { return w.f.Write(b) }
 
 func (f *File) Name() string { return f.path }
-func (f *File) Fd() uintptr  { return f.f.Fd() }
+
+// Fd hands out the real descriptor and remembers whose it is: a raw write(2)
+// on it (package syscall, where that is swapped for simsyscall) still goes
+// through the simulated disk.
+func (f *File) Fd() uintptr {
+	fd := f.f.Fd()
+	fdFiles.Store(int(fd), f)
+	return fd
+}
+
+var fdFiles sync.Map // int -> *File
+
+func init() {
+	simhook.RawWrite = func(fd int, p []byte) (int, error, bool) {
+		v, ok := fdFiles.Load(fd)
+		if !ok {
+			return 0, nil, false
+		}
+		f := v.(*File)
+		if f.dead || f.f.Fd() != uintptr(fd) {
+			return 0, nil, false
+		}
+		n, err := f.write("write", p, 0)
+		if err != nil && n > 0 && n < len(p) {
+			// write(2) reports a short count, not an error: the error comes
+			// with the next call
+			err = nil
+		}
+		return n, err, true
+	}
+}
 
 func (f *File) Read(b []byte) (int, error) {
 	if f != nil && f.std == 0 {
